@@ -290,10 +290,40 @@ func engIndex(e *Env) {
 			}
 		}
 		e.count("unique_probe")
+		// a value is free again after the document holding it was deleted - by docID, by filter, or through the
+		// filter based collection API
+		for vi, how := range []string{"docID", "filter", "collection-api"} {
+			uidv := fmt.Sprintf("free%d", vi)
+			cd, e1 := x.gql(ctx, fmt.Sprintf(`mutation { create_%s(input: {k: %d, uid: "%s"}) { _docID } }`, xcol, 9100+vi, uidv))
+			rows := rowsOf(cd, "create_"+xcol)
+			if e1 != "" || len(rows) != 1 {
+				continue
+			}
+			switch how {
+			case "docID":
+				x.gql(ctx, fmt.Sprintf(`mutation { delete_%s(docID: "%v") { _docID } }`, xcol, rows[0]["_docID"]))
+			case "filter":
+				x.gql(ctx, fmt.Sprintf(`mutation { delete_%s(filter: {uid: {_eq: "%s"}}) { _docID } }`, xcol, uidv))
+			default:
+				if col, err := x.n.DB.GetCollectionByName(ctx, xcol); err == nil {
+					_, _ = col.DeleteWithFilter(ctx, fmt.Sprintf(`{uid: {_eq: "%s"}}`, uidv))
+				}
+			}
+			_, e2 := x.gql(ctx, fmt.Sprintf(`mutation { create_%s(input: {k: %d, uid: "%s"}) { _docID } }`, xcol, 9200+vi, uidv))
+			e.Res.Evaluations++
+			if e2 != "" {
+				e.violate("unique-over-enforced", fmt.Sprintf("after the document holding uid %s was deleted (by %s) a new document with that uid is rejected: %s", uidv, how, e2), map[string]any{"deleted_by": how})
+			}
+			qd, _ := x.gql(ctx, fmt.Sprintf(`query { %s(filter: {uid: {_eq: "%s"}}) { k } }`, xcol, uidv))
+			if n := len(rowsOf(qd, xcol)); e2 == "" && n != 1 {
+				e.violate("index-mismatch", fmt.Sprintf("after delete (by %s) and re-create, the indexed lookup of uid %s returns %d documents", how, uidv, n), map[string]any{"deleted_by": how})
+			}
+		}
 	}
 	// SCase = QCase compared as a set of document numbers
 	compositeSweep(e, ctx, x, r)
 	singleFieldSweep(e, ctx, x)
+	acpIndexWitness(e, ctx, r)
 	writeQueryCases(e, qcases, nil)
 	sort.Strings(e.Res.Notes)
 }
